@@ -19,8 +19,7 @@ fn leave_previous_db(
 ) {
     if let Some(previous_db_name) = previous_db_name {
         if let Some(previous_db) = dbs_map.get(previous_db_name) {
-            previous_db.dec_connections();
-            set_connection_counter(previous_db, dbs);
+            change_connection_counter(previous_db, dbs, false);
         }
     }
 }
@@ -276,8 +275,7 @@ fn process_request_obj(request: &Request, dbs: &Arc<Databases>, client: &mut Cli
                                     &mut *user_name_state,
                                     Some(user_name.clone()),
                                 );
-                                db.inc_connections(); //Increment the number of connections
-                                set_connection_counter(db, &dbs);
+                                change_connection_counter(db, &dbs, true); //Increment the number of connections
                                 Response::Ok {}
                             } else {
                                 Response::Error {
@@ -290,8 +288,7 @@ fn process_request_obj(request: &Request, dbs: &Arc<Databases>, client: &mut Cli
                                 let mut db_name_state = client.selected_db.name.write().unwrap();
                                 leave_previous_db(&db_name_state, &dbs_map, &dbs);
                                 let _ = std::mem::replace(&mut *db_name_state, Some(name.clone()));
-                                db.inc_connections(); //Increment the number of connections
-                                set_connection_counter(db, &dbs);
+                                change_connection_counter(db, &dbs, true); //Increment the number of connections
                                 Response::Ok {}
                             } else {
                                 Response::Error {
